@@ -1,5 +1,6 @@
 """C08 — importing an EDS/DCF yields exactly the described object dictionary."""
 import json
+import canopen
 import random
 
 from props import eds_common as E
@@ -24,6 +25,7 @@ THEOREMS = [
     "Canopen.C08.tables_as_modelled",
 ]
 FINGERPRINT = [
+    "canopen.node.base:BaseNode.__init__",
     "canopen.objectdictionary.eds:import_eds",
     "canopen.objectdictionary.eds:build_variable",
     "canopen.objectdictionary.eds:copy_variable",
@@ -85,7 +87,17 @@ def run_impl(op):
             od = E.import_text(text, fname, nid)
         except Exception:
             return "err"
-        return E.show_od(od)
+        shown = E.show_od(od)
+        # the same file given to a node constructor with the same explicit node id must yield the same dictionary
+        if nid is not None or od.node_id is not None:
+            for ctor in (canopen.RemoteNode, canopen.LocalNode):
+                try:
+                    via = ctor(nid, E.NamedStringIO(text, fname)).object_dictionary
+                except Exception:
+                    continue      # e.g. a random dictionary with a non-record object in the PDO parameter range
+                if E.show_od(via) != shown:
+                    return f"NODE-CTOR {ctor.__name__}(node_id, file) built a different dictionary than import_od(file, node_id)"
+        return shown
     s = E.unhx(a[-1])
     try:
         if kind == "int0":
@@ -126,6 +138,8 @@ def canon_model(op, out):
 # ---- oracle ---------------------------------------------------------------------------------------
 def oracle(op, out):
     a = op.split(" ")
+    if out.startswith("NODE-CTOR"):
+        return "nodector: " + out[10:]
     if a[0] == "imp" and a[4] == "w":
         return E.check_import(json.loads(E.unhx(a[5])), out)
     if a[0] == "lim":
